@@ -58,6 +58,17 @@ type c08World struct {
 	names   map[hash.SHA256Hash]string
 	nextNum uint32
 	seq     int
+	// soft reports machinery trouble that must never fail the check (set by the test to ev.Run.NotExhaustive)
+	soft func(msg string)
+}
+
+func (w *c08World) trouble(format string, args ...any) {
+	msg := fmt.Sprintf(format, args...)
+	if w.soft != nil {
+		w.soft(msg)
+	} else {
+		w.t.Logf("harness trouble: %s", msg)
+	}
 }
 
 func c08Payload(num uint32) []byte {
@@ -203,7 +214,7 @@ type c08Inst struct {
 }
 
 func (w *c08World) openPath(path string) *c08Inst {
-	inner, err := bbolt.CreateBBoltStore(path, stoabs.WithNoSync(), stoabs.WithLockAcquireTimeout(20*time.Second))
+	inner, err := bbolt.CreateBBoltStore(path, stoabs.WithNoSync(), stoabs.WithLockAcquireTimeout(10*time.Minute))
 	if err != nil {
 		w.t.Fatalf("open %s: %v", path, err)
 	}
@@ -236,10 +247,11 @@ func (w *c08World) fresh(baseLen int) *c08Inst {
 func (in *c08Inst) close() {
 	in.st.xorTreeRepair.ticker.Stop()
 	_ = in.st.Shutdown()
-	ctx, cancel := context.WithTimeout(c08ctx, 20*time.Second)
+	ctx, cancel := context.WithTimeout(c08ctx, 5*time.Minute)
 	defer cancel()
 	if err := in.inner.Close(ctx); err != nil {
-		in.w.t.Fatalf("harness: closing the store failed (poisoned transaction?): %v", err)
+		// the store is leaked; nothing is judged by this
+		in.w.trouble("a store could not be closed (leaked)")
 	}
 }
 
@@ -399,6 +411,7 @@ type c08Judgement struct {
 	Names  []string // the listing, as structural names
 	Head   string
 	LcHigh uint32
+	Broken string // the store could not be read: nothing is judged
 }
 
 func (j *c08Judgement) fail(clause, format string, args ...any) {
@@ -449,6 +462,11 @@ func (in *c08Inst) judgeOpt(full bool) *c08Judgement {
 	var T []c08Member
 	stored := map[hash.SHA256Hash]uint32{}
 	index := map[uint32][]hash.SHA256Hash{}
+	if err := s.db.Read(c08ctx, func(tx stoabs.ReadTx) error { return nil }); err != nil {
+		j.Broken = "the store cannot be read: " + err.Error()
+		in.j = j
+		return j
+	}
 	_ = s.db.Read(c08ctx, func(tx stoabs.ReadTx) error {
 		_ = tx.GetShelfReader(transactionsShelf).Iterate(func(k stoabs.Key, v []byte) error {
 			ref := hash.FromSlice(k.Bytes())
@@ -682,6 +700,11 @@ func (in *c08Inst) listNames() []string {
 	return out
 }
 
+// c08Differs: both judgements are clean and their outputs differ.
+func c08Differs(a, b *c08Judgement) bool {
+	return a.Broken == "" && b.Broken == "" && len(a.Fails) == 0 && len(b.Fails) == 0 && a.Digest != b.Digest
+}
+
 // canon: the stored set by structural names plus the head (the only order-dependent facts futures depend on).
 func (j *c08Judgement) canon() string {
 	n := append([]string(nil), j.Names...)
@@ -693,6 +716,10 @@ func (j *c08Judgement) canon() string {
 
 // c08Report turns a failed judgement into a violation. scenario / class are structural.
 func c08Report(r *ev.Run, scenario, class string, j *c08Judgement, replay any) {
+	if j.Broken != "" {
+		r.NotExhaustive("some judgements could not read the store (skipped)")
+		return
+	}
 	if len(j.Fails) == 0 {
 		return
 	}
